@@ -1,4 +1,4 @@
-CONSTANTS TMAX = 2  MAXE = 3  MAXW = 1  ITERS = 1  KEYS = {0}  OPENEND = TRUE
+CONSTANTS TMAX = 2  MAXE = 3  MAXW = 1  ITERS = 1  KEYS = {0}  FIX_F7 = TRUE
 SPECIFICATION Spec
-INVARIANTS C13_Txn
+INVARIANTS C13_Txn EmitReplay
 CHECK_DEADLOCK FALSE
